@@ -45,10 +45,6 @@ package acl
 // exempt: commands that run without authorization (the code also lets the internal "ack" through; no such command is registered).
 //@ spec exempt(c string) bool = lower(c) == "ping" || lower(c) == "echo" || lower(c) == "hello" || lower(c) == "auth" || lower(c) == "ack"
 
-// glob matching is outside the proof: Match only inspects its argument.
-//@ func (Glob).Match in github.com/gobwas/glob trusted props C06
-//@   modifies nothing
-
 //@ func getUnauthorized trusted props C06
 //@   modifies nothing
 
